@@ -1,4 +1,7 @@
 """Rules about the attribute-reading layer of core/src/parser.rs shared by several properties."""
+import json
+import re
+
 from . import core, vt
 
 ATTR_STREAM = {'iter', 'into_iter', 'filter', 'inspect', 'rev', 'cloned', 'copied', 'enumerate', 'peekable', 'by_ref', 'as_ref', 'to_vec', 'clone'}
@@ -75,13 +78,39 @@ def all_attrs_rule(ctx, rep, rule, roots, floor, files=('parser.rs',)):
     rep.floor(rule, 'attribute-reading functions the property depends on', n, floor)
 
 
+FIELD_CONSUMERS = ('parse_struct', 'parse_enum_variant')
+
+
 def field_sites(ctx):
-    """The RustField construction sites in parser.rs: [(fn, struct-literal fact)]."""
+    """The RustField construction sites in parser.rs: [(fn, struct-literal fact)].  A site inside a helper (a function
+    other than the two item parsers) is specialised per call site: the helper's parameters are replaced by the caller's
+    arguments, and the pair is attributed to the calling parser.  Fails closed when one of the two item parsers
+    (named struct fields / struct-variant fields) reaches no construction site."""
+    from . import emit
+    fns = ctx.fns(file='parser.rs')
     out = []
-    for f in ctx.fns(file='parser.rs'):
+
+    def specialise(f, st, depth=0):
+        if f['name'] in FIELD_CONSUMERS or depth > 3:
+            return [(f, st)]
+        res = []
+        params = [p['name'] for p in f['params'] if p['name'] != 'self']
+        for g in fns:
+            for c in g['calls']:
+                if c.get('f') == f['name'] and c.get('recv') is None and len(c.get('args', [])) == len(params):
+                    env = dict(zip(params, c['args']))
+                    st2 = dict(st, v=emit.subst(st['v'], env), via=f['name'], home=st.get('home') or f)
+                    res.extend(specialise(g, st2, depth + 1))
+        return res or [(f, st)]
+
+    for f in fns:
         for st in f['structs']:
             if st['path'].split('::')[-1] == 'RustField':
-                out.append((f, st))
+                out.extend(specialise(f, st))
+    have = {f['name'] for f, _ in out}
+    missing = [c for c in FIELD_CONSUMERS if c not in have]
+    if missing:
+        raise core.Incomplete(f'RustField construction not found for {missing} (directly or through a helper)')
     return out
 
 
@@ -118,3 +147,69 @@ def attr_lookup_spec(ctx, fn_name):
             consts = [a.get('text') for a in lits if isinstance(a, dict) and a.get('k') == 'path']
             return c['f'], names, consts
     return None, [], []
+
+
+# ---------------------------------------------------------------------------------------------------------------
+# Attribute look-up summaries.  For a function of parser.rs: the set of (namespace, argument name, meta kind) triples
+# its result can depend on, computed bottom-up through helper calls with parameters bound at each call site — so the
+# answer does not depend on whether a look-up is written inline, through a shared helper, as an iterator chain or as
+# a loop.  Values are ('const', NAME) | ('lit', text) | ('param', index) | ('?', text).
+
+def _val(v, params):
+    v = vt.strip(v)
+    if isinstance(v, dict):
+        if v.get('k') == 'lit':
+            return ('lit', str(v.get('v')))
+        if v.get('k') == 'path':
+            return ('const', str(v.get('text', '')).replace(' ', '').split('::')[-1])
+        if v.get('k') == 'atom' and not v.get('path') and v.get('root') in params:
+            return ('param', params.index(v['root']))
+        if v.get('k') == 'atom' and not v.get('path') and str(v.get('root', '')).isupper():
+            return ('const', v['root'])
+    return ('?', vt.show(v)[:30])
+
+
+def lookup_summary(ctx, fn_name, _memo=None, _stack=()):
+    memo = _memo if _memo is not None else {}
+    if fn_name in memo:
+        return memo[fn_name]
+    fl = [f for f in ctx.fns(file='parser.rs') if f['name'] == fn_name]
+    if not fl or fn_name in _stack:
+        return set()
+    f = fl[0]
+    params = [p['name'] for p in f['params']]
+    local = {g['name'] for g in ctx.fns(file='parser.rs')}
+    txt = json.dumps(f)
+    kinds = set(re.findall(r'Meta\s*::\s*(Path|NameValue|List)', txt))
+    ns = {_val(c['args'][1], params) for c in f['calls'] if c.get('f') == 'get_meta_items' and c.get('recv') is None and len(c.get('args', [])) == 2}
+    # is_ident(x) appears as a call or inside a `matches!`/match-arm guard that astq keeps as text
+    names = {_val(c['args'][0], params) for c in f['calls'] if c.get('f') == 'is_ident' and c.get('args')}
+    for x in vt.walk(f.get('tail')):
+        if x.get('k') == 'call' and x.get('f') == 'is_ident' and x.get('args'):
+            names.add(_val(x['args'][0], params))
+    for m in re.findall(r'is_ident\s*\(\s*("([^"\\]*)"|[A-Za-z_][A-Za-z0-9_]*)\s*\)', ' '.join(a.get('guard_text') or '' for mm in f['matches'] for a in mm['arms']) + ' ' + ' '.join(str(a.get('pat', '')) for mm in f['matches'] for a in mm['arms'])):
+        names.add(('lit', m[1]) if m[0].startswith('"') else (('param', params.index(m[0])) if m[0] in params else ('const', m[0])))
+    out = set()
+    if ns and names and kinds:
+        out |= {(a, b, kd) for a in ns for b in names for kd in kinds}
+    for c in f['calls']:
+        g = c.get('f')
+        if c.get('recv') is None and g in local and g not in ('get_meta_items',) and g != fn_name:
+            sub = lookup_summary(ctx, g, memo, _stack + (fn_name,))
+            gparams = [p['name'] for p in ctx.fn(g, file='parser.rs')['params']]
+            for (a, b, kd) in sub:
+                def bind(x):
+                    if x[0] == 'param':
+                        return _val(c['args'][x[1]], params) if x[1] < len(c.get('args', [])) else ('?', 'arg')
+                    return x
+                out.add((bind(a), bind(b), kd))
+    memo[fn_name] = out
+    return out
+
+
+def lookup_closed(ctx, fn_name):
+    """Summary restricted to fully bound triples: {(NAMESPACE, name, kind)}; unbound ones are returned separately."""
+    sm = lookup_summary(ctx, fn_name)
+    closed = {(a[1], b[1], kd) for a, b, kd in sm if a[0] == 'const' and b[0] == 'lit'}
+    open_ = {(a, b, kd) for a, b, kd in sm if not (a[0] == 'const' and b[0] == 'lit')}
+    return closed, open_
